@@ -133,11 +133,22 @@ class Oracle:
     def call(self, lines):
         if not lines:
             return []
-        r = subprocess.run([self.path], input='\n'.join(lines) + '\n', stdout=subprocess.PIPE,
-                           stderr=subprocess.PIPE, text=True, timeout=600)
-        out = r.stdout.strip().split('\n') if r.stdout.strip() else []
-        if len(out) != len(lines):
-            raise BuildError('oracle returned %d lines for %d requests (rc=%s): %s' % (len(out), len(lines), r.returncode, r.stderr[-500:]))
+        out = []
+        rest = list(lines)
+        guard = 0
+        while rest:
+            r = subprocess.run([self.path], input='\n'.join(rest) + '\n', stdout=subprocess.PIPE,
+                               stderr=subprocess.PIPE, text=True, timeout=600)
+            got = r.stdout.strip().split('\n') if r.stdout.strip() else []
+            out.extend(got[:len(rest)])
+            if len(got) >= len(rest):
+                break
+            # the process died on request number len(got) (abort: panic inside drop / double panic)
+            out.append('panic (process aborted, rc=%s)' % r.returncode)
+            rest = rest[len(got) + 1:]
+            guard += 1
+            if guard > 200:
+                raise BuildError('oracle keeps aborting: ' + r.stderr[-500:])
         return out
 
 
@@ -149,13 +160,16 @@ class Binding:
     that the oracle output, once parsed by `parse`, must equal; panic: z3 Bool = encoding's
     'this call panics (dev profile)' condition."""
 
-    def __init__(self, name, args, outs, parse=None, panic=False, domain=None, interesting=None):
+    def __init__(self, name, args, outs, parse=None, panic=False, domain=None, interesting=None, line_fn=None):
         self.name, self.args, self.outs, self.panic = name, args, outs, panic
+        self.line_fn = line_fn
         self.parse = parse or (lambda toks: [int(t) for t in toks])
         self.domain = domain            # optional: list of (lo, hi) per arg for validation sampling
         self.interesting = interesting or []
 
     def line(self, vals):
+        if self.line_fn is not None:
+            return self.name + ' ' + self.line_fn([int(v) for v in vals])
         return self.name + ' ' + ' '.join(str(int(v)) for v in vals)
 
 
@@ -247,10 +261,14 @@ class Session:
             raise Inconclusive('%s: no return reached (%s)' % (f.name, '; '.join(w for g, w in E.unsupported)[:600]))
         return r[0]
 
+    def _skip(self, oid):
+        only = os.environ.get('VERIF_ONLY')
+        return bool(only) and not re.search(only, oid)
+
     # -- solving ---------------------------------------------------------
     def _solver(self, E, pre, timeout=None):
         s = z3.Solver()
-        s.set('timeout', (timeout or self.query_timeout) * 1000)
+        self._cur_timeout = (timeout or self.query_timeout)
         for a in E.assumptions:
             s.add(a)
         for p in pre:
@@ -259,12 +277,35 @@ class Session:
             s.add(X.zbool(p))
         return s
 
-    def _check(self, s):
+    def _check(self, s, cases=None):
+        """decide the assertions of solver s (optionally once per extra case assertion, in parallel)
+        in FRESH z3 contexts inside worker processes, so that verdict and time do not depend on
+        what was solved before; small portfolio of seeds / arithmetic cores per query.
+        Returns (verdict, seconds): unsat only if every case is unsat; sat as soon as one is."""
         t = time.time()
-        r = s.check()
+        budget = self._cur_timeout
+        if cases:
+            smts = []
+            for c in cases:
+                s.push()
+                s.add(X.zbool(c))
+                smts.append(s.to_smt2())
+                s.pop()
+        else:
+            smts = [s.to_smt2()]
+        self._model = None
+        results = solve_many(smts, budget)
+        r = z3.unsat
+        for (v, model) in results:
+            if v == 'sat':
+                r = z3.sat
+                self._model = DictModel(model)
+                break
+            if v != 'unsat':
+                r = z3.unknown
         dt = time.time() - t
         self.solver_s += dt
-        self.queries += 1
+        self.queries += len(smts)
         return r, dt
 
     def _side_conditions(self, oid, E, pre, rec):
@@ -299,10 +340,16 @@ class Session:
         self.log('  [%s] %-28s %-12s %.2fs  %s' % (self.prop, oid, verdict, dt, desc[:80]))
         return rec
 
-    def prove(self, oid, E, pre, claim, desc='', bindings=(), bounds=None, assumptions=None, split=None):
+    def prove(self, oid, E, pre, claim, desc='', bindings=(), bounds=None, assumptions=None, split=None, given_no_panic=False):
         """claim must hold for every input satisfying pre.  split: optional list of extra
         preconditions that together cover pre (case split; the caller states the cover)"""
+        if self._skip(oid):
+            return True
         s = self._solver(E, pre)
+        if given_no_panic:
+            # functional claim about panic-free executions; panic-freedom itself is a separate obligation
+            for (g, m, w) in E.panics:
+                s.add(z3.Not(X.zbool(g)))
         s.add(z3.Not(X.zbool(claim)))
         if split:
             # the cases must cover: pre and none of the cases is unsat
@@ -313,16 +360,8 @@ class Session:
                 self._record(oid, 'prove', desc, E, 'inconclusive', dt0)
                 self.inconclusive.append('%s: case split does not cover the precondition' % oid)
                 return False
-            dt = dt0
-            r = z3.unsat
-            for c in split:
-                s.push()
-                s.add(X.zbool(c))
-                r, dti = self._check(s)
-                dt += dti
-                if r != z3.unsat:
-                    break
-                s.pop()
+            r, dt = self._check(s, cases=split)
+            dt += dt0
         else:
             r, dt = self._check(s)
         extra = {'bounds': bounds or '', 'pre': assumptions or []}
@@ -334,9 +373,9 @@ class Session:
             return True
         if r == z3.unknown:
             self._record(oid, 'prove', desc, E, 'inconclusive', dt, extra)
-            self.inconclusive.append('%s: solver returned unknown (%s)' % (oid, s.reason_unknown()))
+            self.inconclusive.append('%s: solver returned unknown (timeout %ds)' % (oid, self._cur_timeout))
             return False
-        model = s.model()
+        model = self._model
         rec = self._record(oid, 'prove', desc, E, 'counterexample', dt, extra)
         self._handle_cex(oid, E, model, bindings, rec, desc)
         return False
@@ -363,7 +402,7 @@ class Session:
             self._record(oid, 'no_panic', desc, E, 'inconclusive', dt, extra)
             self.inconclusive.append('%s: solver returned unknown' % oid)
             return False
-        model = s.model()
+        model = self._model
         which = [m + ' in ' + w for (g, m, w) in panics if z3.is_true(model.eval(X.zbool(g), model_completion=True))]
         rec = self._record(oid, 'no_panic', desc + ' :: ' + '; '.join(which)[:200], E, 'counterexample', dt, extra)
         self._handle_cex(oid, E, model, bindings, rec, desc, expect_panic=True)
@@ -371,6 +410,8 @@ class Session:
 
     def witness(self, oid, E, pre, cond=True, desc='reachability witness'):
         """vacuity guard: pre (and cond) must be satisfiable"""
+        if self._skip(oid):
+            return True
         s = self._solver(E, pre, 60)
         s.add(X.zbool(cond))
         r, dt = self._check(s)
@@ -407,11 +448,9 @@ class Session:
     # -- counterexamples ---------------------------------------------------
     def _handle_cex(self, oid, E, model, bindings, rec, desc, expect_panic=False):
         inputs = {}
-        for d in model.decls():
-            v = model[d]
-            cv = const_val(v)
-            if cv is not None and '!' not in d.name():
-                inputs[d.name()] = cv
+        for name, v in model.items():
+            if '!' not in name:
+                inputs[name] = int(v)
         rec['model'] = inputs
         calls = []
         reproduced = True if bindings else None
@@ -460,6 +499,10 @@ class Session:
     # -- translator validation ----------------------------------------------
     def validate(self, oid, E, b, n=None, extra_vectors=()):
         """push concrete vectors through both the encoding and the native build"""
+        if self._skip(oid):
+            return True
+        if self._skip(oid):
+            return True
         n = n or (200 if self.tier == 'quick' else 1000)
         vecs = [list(v) for v in extra_vectors]
         doms = b.domain or [(0, (1 << 64) - 1)] * len(b.args)
@@ -561,6 +604,96 @@ class Session:
         print('PASS %s tier=%s obligations=%d queries=%d validated_vectors=%d solver=%.1fs wall=%.1fs' % (
             self.prop, self.tier, len(obls), self.queries, self.validated, self.solver_s, wall))
         return 0
+
+
+class DictModel:
+    """model as {constant name: int/bool}; evaluation by substitution (missing constants default
+    to 0 / False, i.e. model completion)"""
+
+    def __init__(self, d):
+        self.d = d
+
+    def eval(self, term, model_completion=True):
+        if isinstance(term, (int, bool)):
+            return z3.IntVal(int(term)) if not isinstance(term, bool) else z3.BoolVal(term)
+        consts = {}
+
+        def walk(t):
+            if z3.is_const(t) and t.decl().kind() == z3.Z3_OP_UNINTERPRETED:
+                consts[t.decl().name()] = t
+                return
+            for c in t.children():
+                walk(c)
+        seen = set()
+
+        def walk2(t):
+            if t.get_id() in seen:
+                return
+            seen.add(t.get_id())
+            if z3.is_const(t) and t.decl().kind() == z3.Z3_OP_UNINTERPRETED:
+                consts[t.decl().name()] = t
+                return
+            for c in t.children():
+                walk2(c)
+        walk2(term)
+        sub = []
+        for n, c in consts.items():
+            v = self.d.get(n, 0)
+            sub.append((c, z3.BoolVal(bool(v)) if z3.is_bool(c) else z3.IntVal(int(v))))
+        return z3.simplify(z3.substitute(term, *sub)) if sub else z3.simplify(term)
+
+    def items(self):
+        return self.d.items()
+
+
+def _solve_one(args):
+    smt, budget = args
+    import z3 as Z
+    plan = [(min(20, budget), 0, None), (min(20, budget), 1, 2), (min(40, budget), 2, None), (budget, 3, 6)]
+    spent = 0
+    for (to, seed, arith) in plan:
+        if spent >= budget:
+            break
+        ctx = Z.Context()
+        s2 = Z.Solver(ctx=ctx)
+        s2.set('timeout', int(max(1, min(to, budget - spent)) * 1000))
+        s2.set('random_seed', seed)
+        if arith is not None:
+            s2.set('arith.solver', arith)
+        s2.from_string(smt)
+        t1 = time.time()
+        r0 = s2.check()
+        spent += time.time() - t1
+        if r0 == Z.sat:
+            m = s2.model()
+            out = {}
+            for d in m.decls():
+                if d.arity() != 0:
+                    continue
+                v = m[d]
+                if Z.is_true(v):
+                    out[d.name()] = True
+                elif Z.is_false(v):
+                    out[d.name()] = False
+                elif Z.is_int_value(v):
+                    out[d.name()] = v.as_long()
+            return ('sat', out)
+        if r0 == Z.unsat:
+            return ('unsat', None)
+    return ('unknown', None)
+
+
+_POOL = None
+
+
+def solve_many(smts, budget):
+    global _POOL
+    if len(smts) == 1 and os.environ.get('VERIF_INPROC'):
+        return [_solve_one((smts[0], budget))]
+    if _POOL is None:
+        import multiprocessing as mp
+        _POOL = mp.get_context('spawn').Pool(int(os.environ.get('VERIF_JOBS', '8')))
+    return _POOL.map(_solve_one, [(x, budget) for x in smts])
 
 
 class Inconclusive(Exception):
